@@ -11,7 +11,7 @@
     Persistence ops:
       DUMP t slack k ttl_1..ttl_k        -> canonical dump (TTLs snapped to the oracle within slack)
       ISAVE t wall chk bytes             -> [TI status; TI tie]   (bytes = the implementation's file)
-      MSAVE t wall                       -> [TI length]           (the model writes the file)
+      MSAVE t downtime wall              -> [TI length]           (the model writes the file as of wall)
       MBYTES t wall                      -> [TB bytes]            (same, returns it; used by the harness)
       PUTFILE t bytes                    -> [TI length]
       RELOAD t wall chk                  -> [TI status]
@@ -257,8 +257,8 @@ Definition rdb_op (s : mst) (op : list tok) : list tok * mst :=
         end
       else if beq name (bs "MSAVE") then
         match rest with
-        | [TI wall] => let b := model_save t wall ds in
-                       ([TI (len b)], {| m_ds := map (purge t) ds; m_disk := Some b |})
+        | [TI _; TI wall] => let b := model_save t wall ds in
+                             ([TI (len b)], {| m_ds := map (purge t) ds; m_disk := Some b |})
         | _ => ([TB (bs "BADOP")], s)
         end
       else if beq name (bs "MBYTES") then
